@@ -86,4 +86,71 @@ CONFIG = {
         "thorough": {"checks": 150000, "shards": 14, "min_nontrivial": 200000, "timeout": 3000},
         "mandatory_labels": ["C06:twins", "C06:dominated-pairs"],
     },
+    "C08": {
+        "rule": "relation cases = a generated valid request plus a bias list of length 0..6 mixing always-reporting biases (fatigue "
+                "const, reversal, omission ratio 0, probe), disabled entries incl. unknown names and garbage props, probabilities "
+                "from {absent,0,1,near 0/1,uniform}; oracles: shape/echo, disabled==absent (byte-identical), non-firing => "
+                "props:null and replaceable/removable without effect, p=1 fires / p=0 never, firing independent of the other "
+                "entries, monotone in p; frequency cases = N seeds per (position,p) within 6.5 sigma + 2. Non-trivial = >= 2 "
+                "enabled entries with a probability strictly between 0 and 1 (relation) / every frequency batch; distinct by case text",
+        "assumptions": ["frequency acceptance band 6.5 sigma + 2 (false-alarm probability < 1e-9 per batch); N = 2000 quick, 20000 thorough"],
+        "quick": {"checks": 8000, "shards": 8, "min_nontrivial": 10000},
+        "thorough": {"checks": 100000, "shards": 14, "min_nontrivial": 150000, "timeout": 3000},
+        "mandatory_labels": ["C08:with-disabled-entries", "C08:non-firing-target", "C08:frequency-decisions"],
+    },
+    "C11": {
+        "rule": "cases = majority requests with 1..6 considered alternatives (7 with fixed order), gain/cost, tie-heavy and near-tie "
+                "(+-5e-7, +-2e-6) values, equal/distinct/negative weights, four draw policies, fixed or seeded-random order, "
+                "currentChoice absent/considered/known only, optional value-only bias prefix; oracle = reference tournament "
+                "(exact for fixed order + deterministic policy; existential over search orders with the current choice first "
+                "and over coin sequences otherwise): drop-out groups as sets, comparedWith/value/comparedAlternativeValue, "
+                "links by reachability. Non-trivial = >= 4 ranked alternatives and a tournament with a score draw and >= 2 "
+                "drop-out groups; distinct by request text",
+        "assumptions": ["the undefeated alternative's own evaluation fields are not constrained by the statement",
+                        "cases where a reference comparison is within 1e-9 of the 1e-6 tie boundary are skipped as ambiguous"],
+        "quick": {"checks": 20000, "shards": 8, "min_nontrivial": 15000},
+        "thorough": {"checks": 250000, "shards": 14, "min_nontrivial": 200000, "timeout": 3000},
+        "mandatory_labels": ["C11:policy=allow", "C11:policy=current", "C11:policy=newer", "C11:policy=random", "C11:random-order-nonidentity",
+                             "C11:coin-newer-observed", "C11:coin-current-observed", "C11:with-bias-prefix", "C11:fixed", "C11:random-order"],
+    },
+    "C12": {
+        "rule": "cases = aspect-elimination requests (1..7 considered alternatives, 1..4 criteria gain/cost, 80% pairwise distinct "
+                "weights, explicit increasing threshold lists and both increasing series, fixed or seeded-random order, 50% dyadic "
+                "values landing exactly on thresholds, optional value-only bias prefix); oracle = reference elimination walk over "
+                "the reference level series: exact for fixed order and distinct weights, existential over alternative orders / "
+                "tie-breaks of equal weights otherwise; survivors first as a set, eliminated in reverse order with (level, "
+                "criterion, threshold), chain links by reachability. Non-trivial = >= 3 ranked alternatives and >= 2 levels "
+                "reached or two alternatives failing the same check; distinct by request text",
+        "assumptions": ["no order is claimed among survivors; a comparison within 1e-9 of a threshold (non-zero) makes the case ambiguous (skipped, counted)"],
+        "quick": {"checks": 20000, "shards": 8, "min_nontrivial": 15000},
+        "thorough": {"checks": 250000, "shards": 14, "min_nontrivial": 200000, "timeout": 3000},
+        "mandatory_labels": ["C12:generated-series", "C12:tied-weights", "C12:random-order", "C12:multi-survivor", "C12:matched"],
+    },
+    "C13": {
+        "rule": "cases = satisfaction requests (as C12 plus currentChoice absent/considered/known only, explicit decreasing lists "
+                "and both decreasing series); oracle = reference acceptance walk in search order (current first) over the reference "
+                "level series: exact for fixed order, existential over orders otherwise; accepted entries in acceptance order with "
+                "level index and full threshold map which they really satisfy, leftovers with the index after the last level and "
+                "the worst end of every range (declared, else over all known alternatives). Non-trivial = >= 3 ranked alternatives "
+                "with acceptances at >= 2 levels or a leftover; distinct by request text",
+        "assumptions": ["no order is claimed among the alternatives that met no level"],
+        "quick": {"checks": 20000, "shards": 8, "min_nontrivial": 15000},
+        "thorough": {"checks": 250000, "shards": 14, "min_nontrivial": 200000, "timeout": 3000},
+        "mandatory_labels": ["C13:generated-series", "C13:random-order", "C13:leftover", "C13:current-choice-considered-with-leftover", "C13:matched"],
+    },
+    "C14": {
+        "rule": "component: the four generated level sources as wired in main.go iterated to exhaustion (coefficient in "
+                "[0.001,0.999], minValue/maxValue over the documented ranges incl. min>=max, 50% dyadic parameters whose levels "
+                "land exactly on the bounds, declared/observed/degenerate/negative ranges, gain and cost, 10% out-of-range "
+                "parameters that must be rejected) compared with the documented series (length exact, thresholds 1e-9 relative, "
+                "strictly monotone, finite); API: aspect elimination must use the increasing and satisfaction the decreasing "
+                "series (C12/C13 oracles on series-only requests) and reject out-of-range parameters. Non-trivial = series with "
+                ">= 3 levels; distinct by case text",
+        "assumptions": ["a stop comparison closer than 1e-9 (non-zero) makes a non-dyadic case ambiguous (skipped, counted)",
+                        "the decreasing multiplied series is generated with minValue >= 0.01 so that its length stays below 5000"],
+        "quick": {"checks": 12000, "shards": 8, "min_nontrivial": 50000},
+        "thorough": {"checks": 150000, "shards": 14, "min_nontrivial": 600000, "timeout": 3000},
+        "mandatory_labels": ["C14:out-of-range-params", "C14:lands-on-bound", "C14:clamped", "C14:degenerate-range", "C14:empty-series",
+                             "C14:api:aspectEliminationHeuristic", "C14:api:satisfactionHeuristic", "C14:api-out-of-range"],
+    },
 }
